@@ -223,6 +223,15 @@ func c17Scenarios() []c17Scenario {
 			return []c17Step{{ua, lst, m, true, 0}}
 		}},
 		{"response-by-via", cfg, func() []c17Step { return []c17Step{{"127.0.1.2:7000", lst, resp200(), true, 0}} }},
+		// a TCP client's request is relayed by Route to a UDP next hop; the next hop's response (subject)
+		// returns on the client's connection
+		{"response-to-tcp-client", cfg, func() []c17Step {
+			rq := MsgSpec{Method: "OPTIONS", RURI: "sip:x@foreign.example.net", Vias: []string{"SIP/2.0/TCP 127.0.0.9:5060;branch=z9hG4bKtc", "SIP/2.0/UDP 10.2.2.2;branch=z9hG4bKc"}, Routes: []string{"<sip:127.0.2.1:5070;lr>"},
+				From: "\"A\" <sip:alice@ua.example.net>;tag=f1", To: "<sip:x@foreign.example.net>", CallID: "c17tcp@host", CSeq: "7 OPTIONS"}.Build()
+			rs := MsgSpec{Status: 200, Reason: "OK", Vias: []string{"SIP/2.0/UDP 127.0.0.1:5060;branch=z9hG4bKproxy", "SIP/2.0/TCP 127.0.0.9:5060;branch=z9hG4bKtc;received=127.0.0.9", "SIP/2.0/UDP 10.2.2.2;branch=z9hG4bKc"},
+				From: "\"A\" <sip:alice@ua.example.net>;tag=f1", To: "<sip:x@foreign.example.net>;tag=tt", CallID: "c17tcp@host", CSeq: "7 OPTIONS", Extra: []WHdr{{"Contact", "<sip:x@127.0.2.1:5070>"}}}.Build()
+			return []c17Step{{"tcp:a", "127.0.0.1:5062", rq, false, 0}, {"127.0.2.1:5070", lst, rs, true, 0}}
+		}},
 		// the establishing response is the subject: the pin it creates is probed by three in-dialog requests
 		{"pin-by-response", cfg, func() []c17Step {
 			return []c17Step{{ua, lst, invite(), false, 0}, {"127.0.1.2:7000", lst, resp200(), true, 0}, {ua, lst, info(2), false, 0}, {ua, lst, info(3), false, 0}, {ua, lst, info(4), false, 0}}
